@@ -104,8 +104,11 @@ inductive UnK
   | neg | not | isNull | length | upper | lower | abs | sqrt | ln | exp | sign | ceil | floor | round
   | year | month | day | extractYear
   | count | sum | min | max | avg
+  | anyValue | stddev | variance | boolAnd | boolOr | groupConcat | approxDistinct      -- more aggregates
+  | lag | lead | firstValue | lastValue   -- window functions over one argument, rendered `F(x) OVER ()` = Window(this = F(x))
+  | subq | exists               -- `(SELECT x FROM t)` (scalar subquery), `EXISTS (SELECT x FROM t)`
   | over | filter               -- wrappers around an aggregate: `agg OVER ()`, `agg FILTER (WHERE <boolean column>)`
-  | cast (to : Ty)
+  | cast (to : Ty) | tryCast (to : Ty)
   deriving DecidableEq, Repr, Inhabited
 
 def castTargets : List Ty :=
@@ -113,21 +116,44 @@ def castTargets : List Ty :=
 
 def UnK.all : List UnK :=
   [.neg, .not, .isNull, .length, .upper, .lower, .abs, .sqrt, .ln, .exp, .sign, .ceil, .floor, .round, .year, .month, .day,
-   .extractYear, .count, .sum, .min, .max, .avg, .over, .filter] ++ castTargets.map .cast
+   .extractYear, .count, .sum, .min, .max, .avg, .anyValue, .stddev, .variance, .boolAnd, .boolOr, .groupConcat,
+   .approxDistinct, .lag, .lead, .firstValue, .lastValue, .subq, .exists, .over, .filter]
+  ++ castTargets.map .cast ++ castTargets.map .tryCast
 
 inductive BinK
   | add | sub | mul | div | intdiv | mod | pow | eq | neq | lt | le | gt | ge | and | or | dpipe | like
   | coalesce | nullif | concat | greatest | least | corr
+  | isDistinct | ilike           -- more predicates: `a IS DISTINCT FROM b`, `a ILIKE b`
+  | arrayElem                    -- `[a, b][1]`: Bracket(Array(a, b), 1)
   deriving DecidableEq, Repr, Inhabited
 
 def BinK.all : List BinK :=
   [.add, .sub, .mul, .div, .intdiv, .mod, .pow, .eq, .neq, .lt, .le, .gt, .ge, .and, .or, .dpipe, .like, .coalesce, .nullif,
-   .concat, .greatest, .least, .corr]
+   .concat, .greatest, .least, .corr, .isDistinct, .ilike, .arrayElem]
 
 inductive TernK | caseWhen | iff
   deriving DecidableEq, Repr, Inhabited
 
 def TernK.all : List TernK := [.caseWhen, .iff]
+
+/-- three-operand predicates: `a BETWEEN b AND c`, `a IN (b, c)` -/
+inductive Pred3K | between | inList
+  deriving DecidableEq, Repr, Inhabited
+
+def Pred3K.all : List Pred3K := [.between, .inList]
+
+/-- window functions without an argument: `ROW_NUMBER() OVER ()` … = Window(this = RowNumber()) -/
+inductive Win0K | rowNumber | rank | denseRank | cumeDist | percentRank
+  deriving DecidableEq, Repr, Inhabited
+
+def Win0K.all : List Win0K := [.rowNumber, .rank, .denseRank, .cumeDist, .percentRank]
+
+/-- number literals by magnitude / notation: 3000000000 (needs BIGINT), 99999999999999999999 (needs HUGEINT), a 40-digit
+    integer (beyond HUGEINT), 1e10 (scientific notation). `_annotate_literal` only asks `is_int`. -/
+inductive NumLitK | big | huge | overflow | sci
+  deriving DecidableEq, Repr, Inhabited
+
+def NumLitK.all : List NumLitK := [.big, .huge, .overflow, .sci]
 
 /-- n-ary forms: COALESCE(a1..an), GREATEST, LEAST, CASE WHEN c THEN a1 WHEN c THEN a2 ... ELSE an END (n ≥ 1; the WHEN
     conditions are a BOOLEAN column: they do not take part in the typing on either side) -/
@@ -139,7 +165,10 @@ def NaryK.all : List NaryK := [.coalesce, .greatest, .least, .caseN]
 /-- the sqlglot node classes whose EXPRESSION_METADATA entry the model reads -/
 inductive NodeC
   | neg | not | is | length | upper | lower | abs | sqrt | ln | exp | sign | ceil | floor | round
-  | year | month | day | extract | count | sum | min | max | avg | window | filter | cast
+  | year | month | day | extract | count | sum | min | max | avg | window | filter | cast | tryCast
+  | anyValue | stddev | variance | logicalAnd | logicalOr | groupConcat | approxDistinct | lag | lead | firstValue | lastValue
+  | subquery | exists | between | in_ | rowNumber | rank | denseRank | cumeDist | percentRank | nullSafeNeq | ilike | array
+  | bracket
   | add | sub | mul | div | intdiv | mod | pow | eq | neq | lt | le | gt | ge | and | or | dpipe | like | coalesce | nullif | concat
   | greatest | least | corr
   | case | if_ | literal | null | boolean | interval
@@ -165,6 +194,9 @@ inductive Meta
   | castTo                                          -- _set_type(e, e.args["to"])
   | literal                                         -- _annotate_literal
   | extract                                         -- _annotate_extract
+  | subquery                                        -- _annotate_subquery: the type of the single projection
+  | arrayOf (mask : List Bool)                      -- _annotate_by_args(..., array=True): ARRAY<by-args result>
+  | bracket                                         -- _annotate_bracket: the element type of an ARRAY operand
   | notModelled                                     -- anything else (the translator also reports a structure change)
   deriving DecidableEq, Repr, Inhabited
 
@@ -181,6 +213,9 @@ structure Tables where
   duckUn : UnK → ETy → ETy                   -- A-duck
   duckBin : BinK → ETy → ETy → ETy
   duckTern : TernK → ETy → ETy → ETy         -- over the two branches; the condition must be BOOLEAN
+  duckPred3 : Pred3K → ETy → ETy → ETy → ETy
+  duckWin0 : Win0K → ETy
+  duckNumLit : NumLitK → ETy
   duckJoin : NaryK → ETy → ETy → ETy         -- pairwise join of n-ary branch classes (string literals stay literals)
   duckCol : Ty → ETy                         -- typeof(column of that declared type)
 
@@ -295,6 +330,11 @@ def annotNode (c : NodeC) (args : List Sm) (castTo : Ty) : Ty :=
   | .castTo => castTo
   | .literal => .unknown       -- literals are leaves (see `smLeaf`)
   | .extract => .int           -- part YEAR: neither TIME, DATE nor an EPOCH part
+  | .subquery => match args with
+    | [a] => a.ty              -- `selects[0].type` of the (already annotated) inner scope
+    | _ => .unknown
+  | .arrayOf _ => .unknown     -- a nested type: only its element type is modelled (see `annotBin .arrayElem`)
+  | .bracket => .unknown
   | .notModelled => .unknown
 
 def leafReturns (c : NodeC) : Ty :=
@@ -308,8 +348,12 @@ def unNode : UnK → NodeC
   | .sqrt => .sqrt | .ln => .ln | .exp => .exp | .sign => .sign | .ceil => .ceil | .floor => .floor | .round => .round
   | .year => .year | .month => .month | .day => .day | .extractYear => .extract
   | .count => .count | .sum => .sum | .min => .min | .max => .max | .avg => .avg
+  | .anyValue => .anyValue | .stddev => .stddev | .variance => .variance | .boolAnd => .logicalAnd | .boolOr => .logicalOr
+  | .groupConcat => .groupConcat | .approxDistinct => .approxDistinct
+  | .lag => .lag | .lead => .lead | .firstValue => .firstValue | .lastValue => .lastValue
+  | .subq => .subquery | .exists => .exists
   | .over => .window | .filter => .filter
-  | .cast _ => .cast
+  | .cast _ => .cast | .tryCast _ => .tryCast
 
 /-- `agg OVER ()` = Window(this = agg), `agg FILTER (WHERE c)` = Filter(this = agg, expression = Where(c)) -/
 def isWrap : UnK → Bool
@@ -317,22 +361,46 @@ def isWrap : UnK → Bool
   | _ => false
 
 def isAgg : UnK → Bool
-  | .count | .sum | .min | .max | .avg => true
+  | .count | .sum | .min | .max | .avg | .anyValue | .stddev | .variance | .boolAnd | .boolOr | .groupConcat
+  | .approxDistinct => true
+  | _ => false
+
+/-- window-only functions: the node is Window(this = F(x)) -/
+def isWinFn : UnK → Bool
+  | .lag | .lead | .firstValue | .lastValue => true
   | _ => false
 
 def annotUn (k : UnK) (a : Sm) : Ty :=
   match k with
   | .isNull => annotNode T .is [a, .of (leafReturns T .null)] .unknown     -- `a IS NULL` = Is(a, Null())
   | .cast to => annotNode T .cast [a] to
-  | k => annotNode T (unNode k) [a] .unknown
+  | .tryCast to => annotNode T .tryCast [a] to
+  | k =>
+    if isWinFn k then annotNode T .window [.of (annotNode T (unNode k) [a] .unknown)] .unknown
+    else annotNode T (unNode k) [a] .unknown
 
 def binNode : BinK → NodeC
   | .add => .add | .sub => .sub | .mul => .mul | .div => .div | .intdiv => .intdiv | .mod => .mod | .pow => .pow | .eq => .eq
   | .neq => .neq | .lt => .lt | .le => .le | .gt => .gt | .ge => .ge | .and => .and | .or => .or | .dpipe => .dpipe
   | .like => .like | .coalesce => .coalesce | .nullif => .nullif | .concat => .concat | .greatest => .greatest
-  | .least => .least | .corr => .corr
+  | .least => .least | .corr => .corr | .isDistinct => .nullSafeNeq | .ilike => .ilike | .arrayElem => .bracket
 
-def annotBin (k : BinK) (a b : Sm) : Ty := annotNode T (binNode k) [a, b] .unknown
+def annotBin (k : BinK) (a b : Sm) : Ty :=
+  match k with
+  | .arrayElem =>
+    -- Array: by-args over the elements, wrapped as ARRAY<result>; Bracket: the element type of its ARRAY operand
+    match T.md .array, T.md .bracket with
+    | .arrayOf m, .bracket => byArgs T (applyMask m [a, b]) false
+    | _, _ => .unknown
+  | k => annotNode T (binNode k) [a, b] .unknown
+
+def pred3Node : Pred3K → NodeC
+  | .between => .between
+  | .inList => .in_
+
+def win0Node : Win0K → NodeC
+  | .rowNumber => .rowNumber | .rank => .rank | .denseRank => .denseRank | .cumeDist => .cumeDist
+  | .percentRank => .percentRank
 
 def ternNode : TernK → NodeC
   | .caseWhen => .case
@@ -395,6 +463,9 @@ inductive TExpr
   | col (q : Qual) (name : String)
   | intLit | decLit | strLit (i : Iso) | nullLit | boolLit
   | interval (dateUnit : Bool)
+  | numLit (k : NumLitK)
+  | win0 (k : Win0K)
+  | pred3 (k : Pred3K) (a b c : TExpr)
   | un (k : UnK) (a : TExpr)
   | bin (k : BinK) (a b : TExpr)
   | tern (k : TernK) (c a b : TExpr)
@@ -432,6 +503,10 @@ def sm : TExpr → Sm
   | .nullLit => .of (leafReturns T .null)
   | .boolLit => .of (leafReturns T .boolean)
   | .interval d => if T.md .interval = .returns .interval then .iv d else .of (leafReturns T .interval)
+  | .numLit k =>
+    if T.md .literal = .literal then (match k with | .sci => .decLit | _ => .intLit) else .of .unknown
+  | .win0 k => .of (annotNode T .window [.of (leafReturns T (win0Node k))] .unknown)
+  | .pred3 k _ _ _ => .of (leafReturns T (pred3Node k))
   | .un k a => .of (annotUn T k (sm a))
   | .bin k a b => .of (annotBin T k (sm a) (sm b))
   | .tern k c a b => .of (annotTern T k (sm c) (sm a) (sm b))
@@ -469,6 +544,9 @@ def eng : TExpr → ETy
   | .nullLit => .null
   | .boolLit => .boolean
   | .interval _ => .interval
+  | .numLit k => T.duckNumLit k
+  | .win0 k => T.duckWin0 k
+  | .pred3 k a b c => T.duckPred3 k (eng a) (eng b) (eng c)
   | .un k a => engUn T k (eng a)
   | .bin k a b => T.duckBin k (eng a) (eng b)
   | .tern k c a b => if eng c = .boolean then T.duckTern k (eng a) (eng b) else .error
@@ -512,11 +590,13 @@ inductive Family
   | ceilFloorInt         -- CEIL / FLOOR declared INT; DuckDB keeps DOUBLE / DECIMAL
   | roundDouble          -- ROUND declared DOUBLE; DuckDB keeps the integer
   | corrBinary           -- CORR typed as a Binary (coerced operand type); DuckDB DOUBLE
+  | intLiteralOverflow   -- an integer literal beyond HUGEINT: `_annotate_literal` says INT, DuckDB reads it as DOUBLE
   deriving DecidableEq, Repr, Inhabited
 
 def Family.all : List Family :=
   [.nullOnlyArith, .decimalNullArith, .strlitNullArith, .concatNull, .dateInterval, .temporalDiff, .mixedChainArith,
-   .intervalMinusString, .mixedChainBranches, .sumBoolean, .avgTemporal, .ceilFloorInt, .roundDouble, .corrBinary]
+   .intervalMinusString, .mixedChainBranches, .sumBoolean, .avgTemporal, .ceilFloorInt, .roundDouble, .corrBinary,
+   .intLiteralOverflow]
 
 def smClass (s : Sm) : TyClass := classOf s.ty
 
@@ -558,7 +638,7 @@ def isArith : BinK → Bool
 
 def famBin (k : BinK) (a b : Sm) (ea eb : ETy) : Option Family :=
   match k with
-  | .coalesce | .greatest | .least => famBranches a b
+  | .coalesce | .greatest | .least | .arrayElem => famBranches a b
   | .dpipe => if ea == .null || eb == .null then some .concatNull else none
   | .corr => if smClass a == .decimal || smClass b == .decimal then none else some .corrBinary
   | .add | .sub | .mul | .intdiv | .mod | .div =>
@@ -580,12 +660,17 @@ def famBin (k : BinK) (a b : Sm) (ea eb : ETy) : Option Family :=
 
 def famTern (_k : TernK) (a b : Sm) : Option Family := famBranches a b
 
+def famNumLit : NumLitK → Option Family
+  | .overflow => some .intLiteralOverflow
+  | _ => none
+
 mutual
 def hasCol : TExpr → Bool
   | .col _ _ => true
   | .un _ a => hasCol a
   | .bin _ a b => hasCol a || hasCol b
   | .tern _ c a b => hasCol c || hasCol a || hasCol b
+  | .pred3 _ a b c => hasCol a || hasCol b || hasCol c
   | .nary _ args => hasColArgs args
   | _ => false
 def hasColArgs : TArgs → Bool
@@ -594,33 +679,17 @@ def hasColArgs : TArgs → Bool
 end
 
 def isLeaf : TExpr → Bool
-  | .un _ _ | .bin _ _ _ | .tern _ _ _ _ | .nary _ _ => false
+  | .un _ _ | .bin _ _ _ | .tern _ _ _ _ | .nary _ _ | .pred3 _ _ _ _ => false
   | _ => true
 
 def isNullLit : TExpr → Bool
   | .nullLit => true
   | _ => false
 
-mutual
-/-- no NULL literal as a direct operand of a NULL-propagating operator (DuckDB's binder folds such a call to a constant NULL);
-    NULL literals remain allowed as CASE / IF branches and COALESCE / GREATEST / LEAST arguments -/
-def nullSafe : TExpr → Bool
-  | .un _ a => !isNullLit a && nullSafe a
-  | .bin k a b => (k == .coalesce || (!isNullLit a && !isNullLit b)) && nullSafe a && nullSafe b
-  | .tern _ c a b => !isNullLit c && nullSafe c && nullSafe a && nullSafe b
-  | .nary _ args => nullSafeArgs args
-  | _ => true
-def nullSafeArgs : TArgs → Bool
-  | .nil => true
-  | .cons e rest => nullSafe e && nullSafeArgs rest
-end
-
-/-- an operand is a leaf, or mentions a column and is `nullSafe` (it is not folded to a constant at bind time) -/
-def operandOk (e : TExpr) : Bool := isLeaf e || (hasCol e && nullSafe e)
-
 /-- CAST only to the listed target types -/
 def unKnown : UnK → Bool
   | .cast to => castTargets.contains to
+  | .tryCast to => castTargets.contains to
   | _ => true
 
 def isAggNode : TExpr → Bool
@@ -630,8 +699,29 @@ def isAggNode : TExpr → Bool
 section
 variable (T : Tables) (S : Schema)
 
+mutual
+/-- no operand of the engine's SQLNULL type (a NULL literal, or e.g. `CASE WHEN c THEN NULL ELSE NULL END`) directly under a
+    NULL-propagating operator: DuckDB's binder folds such a call to a constant NULL, which `||` and DECIMAL arithmetic then
+    type like the NULL literal. SQLNULL operands remain allowed as CASE / IF branches and COALESCE / GREATEST / LEAST
+    arguments. -/
+def nullSafe : TExpr → Bool
+  | .un _ a => eng T S a != .null && nullSafe a
+  | .bin k a b => (k == .coalesce || (eng T S a != .null && eng T S b != .null)) && nullSafe a && nullSafe b
+  | .tern _ c a b => eng T S c != .null && nullSafe c && nullSafe a && nullSafe b
+  | .pred3 _ a b c =>
+    eng T S a != .null && eng T S b != .null && eng T S c != .null && nullSafe a && nullSafe b && nullSafe c
+  | .nary _ args => nullSafeArgs args
+  | _ => true
+def nullSafeArgs : TArgs → Bool
+  | .nil => true
+  | .cons e rest => nullSafe e && nullSafeArgs rest
+end
+
+/-- an operand is a leaf, or mentions a column and is `nullSafe` (it is not folded to a constant at bind time) -/
+def operandOk (e : TExpr) : Bool := isLeaf e || (hasCol e && nullSafe T S e)
+
 /-- an operand the theorem talks about: well-scoped and with an inferred type -/
-def typedOperand (e : TExpr) : Bool := operandOk e && sm T S e != .of .unknown
+def typedOperand (e : TExpr) : Bool := operandOk T S e && sm T S e != .of .unknown
 
 /-! n-ary branches: the state of `_annotate_by_args` (two accumulators) runs along the engine's running join -/
 
@@ -701,7 +791,11 @@ def WF : TExpr → Bool
        | some (t, e) => Rel (.of t) e && t != .unknown
        | none => false)
     | _ => false
-  | .intLit | .decLit | .strLit _ | .nullLit | .boolLit | .interval _ => true
+  | .intLit | .decLit | .strLit _ | .nullLit | .boolLit | .interval _ | .win0 _ => true
+  | .numLit k => (famNumLit k).isNone
+  | .pred3 k a b c =>
+    WF a && WF b && WF c && (typedOperand T S a && typedOperand T S b && typedOperand T S c)
+    && T.duckPred3 k (eng T S a) (eng T S b) (eng T S c) != .error
   | .un k a =>
     WF a && typedOperand T S a && (!isWrap k || isAggNode a) && unKnown k
     && (famUn k (sm T S a) (eng T S a)).isNone && engUn T k (eng T S a) != .error
@@ -734,6 +828,16 @@ def leafCheck : Bool :=
   && T.md .interval == .returns .interval
   && Rel (.of (leafReturns T .null)) .null
   && Rel (.of (leafReturns T .boolean)) .boolean
+
+/-- the added leaves and the three-operand predicates: number literals agree iff not in a family; argument-less window
+    functions agree; BETWEEN / IN are BOOLEAN on both sides whatever their (accepted) operands -/
+def extraCheck : Bool :=
+  (NumLitK.all.all fun k =>
+    (famNumLit k).isNone ==
+      Rel (if T.md .literal = .literal then (match k with | .sci => Sm.decLit | _ => Sm.intLit) else .of .unknown) (T.duckNumLit k))
+  && (Win0K.all.all fun k => Rel (.of (annotNode T .window [.of (leafReturns T (win0Node k))] .unknown)) (T.duckWin0 k))
+  && (Pred3K.all.all fun k => ETy.all.all fun ea => ETy.all.all fun eb => ETy.all.all fun ec =>
+        T.duckPred3 k ea eb ec == .error || Rel (.of (leafReturns T (pred3Node k))) (T.duckPred3 k ea eb ec))
 
 /-- for typed operands: accepted ⇒ (agrees ⇔ in no family) -/
 def unCheck : Bool :=
